@@ -673,6 +673,7 @@ struct ConcRun
         out.st.bump("fault.preempt_in_locked_code_running_unlocked", sched::susp_fired());
         out.st.bump("probe.locked_code_running_unlocked", sched::susp_seen());
         out.st.bump("fault.stall_at_second_lock_acquisition", sched::relock_fired());
+        out.st.bump("probe.busy_wait_yields", sched::spin_yields());
 
         std::map<std::tuple<int, int, int>, size_t> where; // (client, epoch, idx) -> hist index
         for (size_t e = 0; e < plan.epochs.size(); ++e)
